@@ -42,7 +42,10 @@ def _linear(seqs, bound, menu=MENU, **kw):
 
 
 SPECS = {
-    "quick": _linear(generated.sequences(2), 1) + _linear(HAND, 1) + [spec(k, MENU, bound=1) for k in ("tworuns", "nested", "scan2")] + [spec("tiny", MENU, bound=2)],
+    "quick": _linear(generated.sequences(2), 1) + _linear(HAND, 1) + [spec(k, MENU, bound=1) for k in ("tworuns", "nested", "scan2")] + [spec("tiny", MENU, bound=2)]
+    # devices whose stage()/unstage() return a Status (ophyd-async flavour): still implicit checkpoints
+    + _linear([s for s in generated.sequences(2) if "st" in s] + ["cp-n-st-n-n-us-n", "n-n-st-n-cp-n", "cp-set-st-n-sl-us-n"], 1, ss=1)
+    + [spec("scan2", MENU, bound=1, ss=1)],
     "thorough": _linear(generated.sequences(3), 1)
     + _linear([s for s in generated.sequences(4, _small) if len(s) == 4], 1, menu=[("pause",), ("suspend", "both")])
     + _linear(HAND, 2)
